@@ -28,7 +28,7 @@ OPEN = {
 	'C07': 'The HTTP/1.0 + chunked combination is finding F6.',
 	'C08': 'The round-trip clause is a theorem (`compose_parse_roundtrip`, `Proofs/HeadersRoundtrip.lean`) for collections without list-valued fields; those (Set-Cookie, WWW-Authenticate, Proxy-Authenticate) are composed field-specifically and judged by the oracle.',
 	'C09': 'Open: whole elements and lists (several parameters, quote parity across parameters, RFC 2231 continuations) as theorems; they are tied by correspondence for the four element classes.',
-	'C10': 'Open: `parse (compose c) = c` for all eight components at once (the three structured cuts are proved; the assembly is correspondence/oracle). IPv6 literals and IDN hosts go through socket/idna: oracle only.',
+	'C10': 'Proved: the three inner cuts (userinfo, host:port, path) and the five outer cuts (`uri_cuts`, `compose_assemble`): no component leaks into its neighbour. Open as one theorem: the final record (class by scheme, port defaults) - correspondence/oracle. IPv6 literals and IDN hosts go through socket/idna: oracle only.',
 	'C11': 'The RFC clause is now a theorem (`abspath_eq_rfc`, `normalize_path_rfc`; `Proofs/Rfc.lean`, `Proofs/RfcAbspath.lean`): the buffer-rewriting loop of RFC 3986 §5.2.4 is shown to be a stack machine on segments, and `abspath` (whose stack also holds, and may pop, the root segment) is related to it. Trusted there: the transcription of the RFC text.',
 	'C12': 'Degenerate references ("?", "#", "//", "s:") are outside the quantifier.',
 	'C13': 'The unguarded statement is false of the code (F1); `unquote_quote_fixed` proves it for the `%02X` variant, `c13_witness` exhibits the failure.',
